@@ -2,6 +2,7 @@
    F-C-OVR-CAP (fixed by 2e84c7a): length checks against the DSDL capacity with a reduced storage, unchecked stores with the
    up-front test compiled out.  F-C-PTR-PAST-END (fixed by 9be3c74): &buffer[offset_bits / 8U] unclamped.
    F-CPP-PTR-PAST-END (fixed by 939fc9d): any_bitspan::subspan() returned data_.data() + offset_bytes unclamped.
+   F-CPP-HDR-WRAP32 and F-C-OVR-ASSERT (fixed by f2f61d1): header test multiplying before comparing; maximum-fits assertion under the override.
    F-CPP-UNION14 (fixed by d43de40): destroy_current over the filtered field list.  F-CPP-VLA (fixed by 5719048): no clear(). *)
 From Verif Require Import Wire WireThm Walker WalkerSafe WalkerSafeThm WalkerSafeCpp WalkerSafeCppThm.
 From Coq Require Import Lia.
@@ -11,7 +12,7 @@ Local Open Scope nat_scope.
 Theorem too_small_writes_without_check_refuted :
   exists c t o capB, up_front c = false /\ 8 * capB < bmax t /\ forallb (acc_ok capB) (snd (walk_ser_safe c t o capB)) = false.
 Proof.
-  exists {| ov := fun _ n => n; up_front := false; little := false; al := dyn_al; len_chk_storage := false; guarded := false; ptr_clamp := true; bulk_on := true; nested_strict := false; plan := all_first |},
+  exists {| ov := fun _ n => n; up_front := false; little := false; al := dyn_al; len_chk_storage := false; guarded := false; ptr_clamp := true; bulk_on := true; nested_strict := false; plan := all_first; asserts := false; assert_max := true |},
          (TComp false [TPrim (PU 8 true)] None), (CStruct [CPrim (VInt 1)]), 0.
   split; [reflexivity|]. split; [vm_compute; lia | vm_compute; reflexivity].
 Qed.
@@ -22,7 +23,7 @@ Theorem des_in_bounds_override_refuted :
   exists c t prior buf capB, length buf = 8 * capB /\ wf_ty t = true /\
     fst (walk_des_safe c t prior buf) <> Err EBadLen /\ forallb (acc_ok capB) (snd (walk_des_safe c t prior buf)) = false.
 Proof.
-  exists {| ov := fun _ _ => 2; up_front := false; little := false; al := dyn_al; len_chk_storage := false; guarded := false; ptr_clamp := true; bulk_on := true; nested_strict := false; plan := all_first |},
+  exists {| ov := fun _ _ => 2; up_front := false; little := false; al := dyn_al; len_chk_storage := false; guarded := false; ptr_clamp := true; bulk_on := true; nested_strict := false; plan := all_first; asserts := false; assert_max := true |},
          (TComp false [TVar (TPrim (PU 7 true)) 8] None),
          (CStruct [CVar 0 [CPrim (VInt 0); CPrim (VInt 0)]]), (bits_of_bytes [5; 1; 2; 3; 4; 5; 0]%N), 7.
   split; [reflexivity|]. split; [reflexivity|]. split; [vm_compute; discriminate | vm_compute; reflexivity].
@@ -32,7 +33,7 @@ Theorem ser_in_bounds_override_refuted :
   exists c t o capB, bmax t <= 8 * capB /\ wf_ty t = true /\
     fst (walk_ser_safe c t o capB) <> Err EBadLen /\ forallb (acc_ok capB) (snd (walk_ser_safe c t o capB)) = false.
 Proof.
-  exists {| ov := fun _ _ => 2; up_front := false; little := false; al := dyn_al; len_chk_storage := false; guarded := false; ptr_clamp := true; bulk_on := true; nested_strict := false; plan := all_first |},
+  exists {| ov := fun _ _ => 2; up_front := false; little := false; al := dyn_al; len_chk_storage := false; guarded := false; ptr_clamp := true; bulk_on := true; nested_strict := false; plan := all_first; asserts := false; assert_max := true |},
          (TComp false [TVar (TPrim (PU 7 true)) 8] None),
          (CStruct [CVar 5 [CPrim (VInt 0); CPrim (VInt 0)]]), 8.
   split; [vm_compute; lia|]. split; [reflexivity|]. split; [vm_compute; discriminate | vm_compute; reflexivity].
@@ -42,7 +43,7 @@ Qed.
 (* the pre-fix rendering (`&buffer[offset_bits / 8U]`, fixed in 9be3c74) once implicit zero extension has moved the cursor past
    the end: struct { uint64 big; In inner } decoded from 2 bytes forms &buffer[8] (F-C-PTR-PAST-END); kept as documentation *)
 Definition old_ptr_cfg : cfg :=
-  {| ov := fun _ n => n; up_front := true; little := false; al := dyn_al; len_chk_storage := false; guarded := false; ptr_clamp := false; bulk_on := true; nested_strict := false; plan := all_first |}.
+  {| ov := fun _ n => n; up_front := true; little := false; al := dyn_al; len_chk_storage := false; guarded := false; ptr_clamp := false; bulk_on := true; nested_strict := false; plan := all_first; asserts := false; assert_max := true |}.
 Theorem des_ptr_in_bounds_refuted :
   exists t prior buf capB, wf_ty t = true /\ length buf = 8 * capB /\
     forallb (ptr_ok capB) (snd (walk_des_safe old_ptr_cfg t prior buf)) = false.
@@ -65,10 +66,28 @@ Proof. exists [1; 2; 3], [9; 8]. vm_compute. discriminate. Qed.
 Theorem cpp_des_ptr_in_bounds_refuted :
   exists t prior buf capB, wf_ty t = true /\ length buf = 8 * capB /\
     forallb (ptr_ok capB) (snd (walk_des_safe {| ov := fun _ n => n; up_front := true; little := false; al := fun _ => false; len_chk_storage := false; guarded := false;
-     ptr_clamp := false; bulk_on := false; nested_strict := true; plan := all_first |} t prior buf)) = false.
+     ptr_clamp := false; bulk_on := false; nested_strict := true; plan := all_first; asserts := false; assert_max := true |} t prior buf)) = false.
 Proof.
   exists (TComp false [TPrim (PU 64 true); TComp false [TPrim (PU 8 true); TPrim (PU 8 true)] None] None), dflt,
          (bits_of_bytes [1; 2]%N), 2.
   split; [reflexivity|]. split; [reflexivity | vm_compute; reflexivity].
 Qed.
 
+
+(* the firing instance (D3): both options, the array of uint7[<=8] xs stored in 2 elements, a valid object, an exactly-sized buffer *)
+Theorem override_assert_refuted : exists c t o capB, up_front c = false /\ asserts c = true /\ guarded c = true /\
+  fst (walk_ser_safe c t o capB) = Err EAssert /\
+  fst (walk_ser_safe {| ov := ov c; up_front := false; little := little c; al := al c; len_chk_storage := true; guarded := true;
+                        ptr_clamp := true; bulk_on := true; nested_strict := false; plan := all_first; asserts := true; assert_max := false |}
+         t o capB) = Ok 3.
+Proof.
+  exists {| ov := fun _ _ => 2; up_front := false; little := false; al := dyn_al; len_chk_storage := true; guarded := true; ptr_clamp := true;
+            bulk_on := true; nested_strict := false; plan := all_first; asserts := true; assert_max := true |},
+         (TComp false [TVar (TPrim (PU 7 true)) 8] None), (CStruct [CVar 2 [CPrim (VInt 1); CPrim (VInt 2)]]), 3.
+  repeat split; vm_compute; reflexivity.
+Qed.
+
+
+(* D1: with a 32-bit size_t the multiplication form accepted header 0x20000001 in front of 2 bytes (WalkerSafeCppThm.hdr_mul_w32_refuted) *)
+Theorem cpp_hdr_mul_w32_refuted : hchk_eval 32 HMulCmp 536870913 16 = false /\ (16 / 8 <? 536870913)%N = true.
+Proof. exact hdr_mul_w32_refuted. Qed.
